@@ -18,6 +18,7 @@ KEY_VARIANT = "removeFromInFlightPQ-unrelated-removed"
 KEY_BADFILE = "diskqueue-bad-file-left-behind"
 KEY_ORPHAN = "orphan-durable-channel-under-ephemeral-topic"
 KEY_LEAK = "empty-races-delivery-leaks-inflight-count"
+KEY_NEG = "answer-races-empty-negative-count"
 
 
 def tree_fixed():
@@ -113,8 +114,18 @@ def replay_known(ctx, binp):
     else:
         ctx.evaluations += 1
         if kv.get("starved") == "true" or (kv.get("client_in_flight_count", "0") != "0" and kv.get("in_flight_map") == "0"):
-            ctx.violation(KEY_LEAK, "empty_races_delivery: " + " ".join("%s=%s" % x for x in sorted(kv.items())),
-                          open(os.path.join(ROOT, "corpus", "C08", "known", "empty_races_delivery.sched")).read())
+            report(ctx, KEY_LEAK, "empty_races_delivery: " + " ".join("%s=%s" % x for x in sorted(kv.items())),
+                   open(os.path.join(ROOT, "corpus", "C08", "known", "empty_races_delivery.sched")).read())
+    for name in ("fin_races_empty_count", "req_races_empty_count"):
+        rc, kv, out = run_sched(ctx, binp, name, timeout=90)
+        res[name] = kv or {"error": out[-300:]}
+        if not kv:
+            ctx.broken_ties.append("replay %s did not run (rc=%s)" % (name, rc))
+            continue
+        ctx.evaluations += 1
+        if kv.get("wrong") == "true":
+            report(ctx, KEY_NEG, "%s: %s" % (name, " ".join("%s=%s" % x for x in sorted(kv.items()))),
+                   open(os.path.join(ROOT, "corpus", "C08", "known", name + ".sched")).read())
     rc, kv, out = run_sched(ctx, binp, "orphan_resurrect")
     res["orphan_resurrect"] = kv or {"error": out[-300:]}
     if not kv:
